@@ -9,6 +9,7 @@ import pickle
 import warnings
 from collections.abc import Awaitable, Iterator, Sequence
 from contextlib import contextmanager
+from copy import deepcopy
 from functools import wraps
 from itertools import product
 from typing import TYPE_CHECKING, Any, Callable, TypeVar
@@ -27,12 +28,15 @@ def named_product(**items: Sequence[Any]):
 
 @contextmanager
 def restore(*learners) -> Iterator[None]:
-    states = [learner.__getstate__() for learner in learners]
+    # A learner's pickled state (__getstate__) holds its data but, for most
+    # learners, neither the pending points nor anything derived from them, and
+    # may alias live containers; snapshot the complete attribute dictionaries.
+    states = [deepcopy(learner.__dict__) for learner in learners]
     try:
         yield
     finally:
         for state, learner in zip(states, learners):
-            learner.__setstate__(state)
+            learner.__dict__ = state
 
 
 def cache_latest(f: Callable) -> Callable:
